@@ -3466,7 +3466,8 @@ static Token *function(Token *tok, Type *basety, VarAttr *attr) {
     fn->is_inline = attr->is_inline;
   }
 
-  fn->is_root = !(fn->is_static && fn->is_inline);
+  // A root mark set by an earlier reference survives a redeclaration.
+  fn->is_root = fn->is_root || !(fn->is_static && fn->is_inline);
 
   if (consume(&tok, tok, ";"))
     return tok;
@@ -3504,6 +3505,7 @@ static Token *function(Token *tok, Type *basety, VarAttr *attr) {
   fn->locals = locals;
   leave_scope();
   resolve_goto_labels();
+  current_fn = NULL;
   return tok;
 }
 
